@@ -57,6 +57,7 @@ static void run_solution(const orc::Sol& sol, const SolSpec& spec, uint64_t seed
     if (!classes.count(cls)) continue;
     evs.push_back(ev_index(id));
   }
+  long double prev_pt[4] = {0, 0, 0, 0}; bool have_prev = false;
   for (long cs = case0; cs < case0 + ncases; cs++) {
     Rng r(seed, strhash(sol.name) * 1000003ULL + (uint64_t)cs * 2 + (sizeof(S) == 8 ? 0 : 1));
     orc::Draw dr;
@@ -80,6 +81,9 @@ static void run_solution(const orc::Sol& sol, const SolSpec& spec, uint64_t seed
     for (int pt = 0; pt < npoints; pt++) {
       long double xs[4] = {0, 0, 0, 0};
       sol.point(r, xs, sol.nargs);
+      if (pt == 0 && have_prev) for (int i = 0; i < 4; i++) xs[i] = prev_pt[i];   // same point, new parameters
+      for (int i = 0; i < 4; i++) prev_pt[i] = xs[i];
+      have_prev = true;
       S a[4]; long double al[4];
       orc::Ctx c = base;
       for (int i = 0; i < sol.nargs; i++) { a[i] = (S)xs[i]; al[i] = (long double)a[i]; xs[i] = (long double)a[i]; c.x[i] = EQ::exact((orc::Q)a[i]); }
@@ -153,8 +157,11 @@ static void run_solution(const orc::Sol& sol, const SolSpec& spec, uint64_t seed
           MaxStat& ms = g_ratio[sol.name + "|" + e.id + "|" + Eps<S>::tag];
           ms.n++;
           if (ratio > ms.max) { ms.max = ratio; }
-          if (ratio > precK)
+          if (ratio > precK) {
             viol_once("C09", "precision:" + sol.name + ":" + e.id + ":" + Eps<S>::tag, "error exceeds the working-precision bound K*u*e", detail(ratio));
+            // "within floating-point roundoff ... in both scalar types" is part of the statement of C01-C07 as well
+            viol_once(semprop, "roundoff-exceeded:" + sol.name + ":" + e.id + ":" + Eps<S>::tag, "value agrees with the reference only to " + std::to_string(ratio) + " u e (bound " + std::to_string(precK) + ")", detail(ratio));
+          }
           if (dl_compare) {
             long double libl = call_ev<long double>(e, al, dir, cb<long double>(cbk));
             double dd = (double)fabsl((long double)lib - libl);
